@@ -255,6 +255,40 @@ func RunC16(r *report.Run, b Bins, tier string, seed int64) {
 		}
 	}
 	r.Count("plugin_runs_per_legal_input", int64(runs))
+	// the plugin's other mode (parameter dev=true: one file per generated Gorums type, as used to maintain the repository's own
+	// dev package): the same input must give the same response bytes on every run there too (the output is not compiled here:
+	// it is meant to live next to the hand-written dev package)
+	nd := 0
+	for i := range cases {
+		c := &cases[i]
+		if c.expect != "accept" || nd >= 12 {
+			continue
+		}
+		protos := c.Protos()
+		if plugin.Validate(protos) != nil {
+			continue
+		}
+		req, err := plugin.Request(protos, []string{c.Gen}, c.Param+",dev=true")
+		if err != nil {
+			continue
+		}
+		nd++
+		var first *plugin.Result
+		for n := 0; n < 8; n++ {
+			res := plugin.Run(b.Gorums, req, 10*time.Second, "")
+			if first == nil {
+				first = res
+				continue
+			}
+			if res.Exit != first.Exit || !bytes.Equal(res.Raw, first.Raw) {
+				r.Violate("unstable-output:dev-mode", fmt.Sprintf("parameter dev=true: run 1 and run %d of the plugin on the same request differ (exit %d/%d, %d/%d bytes, %d files)", n+1, first.Exit, res.Exit, len(first.Raw), len(res.Raw), len(first.Files())),
+					map[string]any{"definition": c.Desc})
+				break
+			}
+		}
+		r.Eval("dev-mode|"+c.Desc+"|"+c.Files[0].Package, true)
+		r.Count("dev_mode_inputs_run_8_times", 1)
+	}
 }
 
 func keys(m map[string]string) []string {
